@@ -78,6 +78,10 @@ CHECKS = {
          "Generated crash-point search: every cut of every generated sequence is resumed from its captured state and compared with the uninterrupted run (streamz vs streamz). Exploration only.",
          "Trusted: deep copy of the emitted state is the checkpoint; resumed pipelines use the empty example frame.",
          "DESIGN.md section 4 C12"),
+ "C09": ("Hypothesis-generated production / poll / completion / crash-restart histories against an in-memory fake of the confluent_kafka client on the virtual loop; invariants over emitted ranges, delivered contents, commit order and end-to-end at-least-once",
+         "Generated-history search with crash points: the consuming process (loop and all objects) is discarded at any generated point and restarted against the surviving broker state. Exploration only; this code has no executed coverage in the repository suite (its Kafka tests are skipped).",
+         "Trusted: harness/fakes/confluent_kafka.py as the broker/client behaviour (watermarks, committed offsets, poll); the reset=latest redelivery baseline in props/c09.py.",
+         "DESIGN.md section 4 C09"),
 }
 NOT_YET = "check not built yet in this session (the property is decidable with this technique; see DESIGN.md section 4)"
 
